@@ -52,7 +52,7 @@ func measureSplit(points []r2.Point, eps float64, b, e int) int {
 
 // ---------------------------------------------------------------- generators
 
-var classNames = []string{"random", "grid", "collinear", "closed", "duplicates", "zigzag", "curve", "walk", "spikes", "grid-closed"}
+var classNames = []string{"random", "grid", "collinear", "closed", "duplicates", "zigzag", "curve", "walk", "spikes", "grid-closed", "growing", "spiral"}
 
 func genLine(rng *rand.Rand, n int, class int) []r2.Point {
 	pts := make([]r2.Point, n)
@@ -111,6 +111,24 @@ func genLine(rng *rand.Rand, n int, class int) []r2.Point {
 			pts[i] = r2.Point{X: float64(i), Y: y}
 		}
 		pts[0].Y, pts[n-1].Y = 0, 0
+	case "growing":
+		// a zig-zag whose amplitude grows along the line: the point furthest from the chord is near the END of the
+		// interval time after time, so the left-hand halves nest as deep as the line is long
+		g := 1.1 + rng.Float64()*0.1
+		for i := range pts {
+			y := math.Pow(g, float64(i))
+			if i%2 == 0 {
+				y = -y
+			}
+			pts[i] = r2.Point{X: 10 * float64(i), Y: y}
+		}
+	case "spiral":
+		// outwards from the centre
+		for i := range pts {
+			a := float64(i) * 2 * math.Pi / 12
+			r := 1 + float64(i)*0.7
+			pts[i] = r2.Point{X: r * math.Cos(a), Y: r * math.Sin(a)}
+		}
 	case "curve":
 		f := 0.2 + rng.Float64()*2
 		for i := range pts {
@@ -506,6 +524,9 @@ func measure(args []string) int {
 			n = 2 + rng.Intn(*maxN-1)
 		}
 		class := id % len(classNames)
+		if classNames[class] == "growing" || classNames[class] == "spiral" {
+			n = *maxN - rng.Intn(5) // long: these classes are about the depth of nesting
+		}
 		epsKind := rng.Intn(len(epsNames))
 		pts := genLine(rng, n, class)
 		eps := genEps(rng, pts, epsKind)
